@@ -4,39 +4,113 @@ import S3V.Spec.Dto
 /-! # Timestamp theorems (C14): round trips of the text forms, instant preservation -/
 namespace S3V.Dto
 
-/-- the UTC fields of an instant of the years 1 … 9999 are a valid date-time that denotes it -/
-theorem utcFields_facts (unix : Int) (h1 : -62135596800 ≤ unix) (h2 : unix ≤ 253402300799) :
+theorem daysInMonth_le_31 (y : Int) (m : Nat) : daysInMonth y m ≤ 31 := by
+  unfold daysInMonth; split
+  · split <;> omega
+  · split <;> omega
+
+/-- the UTC year of an instant, by range of the instant: years 0000 … 9999 are exactly the seconds
+    −62167219200 … 253402300799; the range of `time` (−9999 … 9999) is `unixMin … unixMax` -/
+theorem utcYear_of_range (unix : Int) :
+    (-62167219200 ≤ unix → unix ≤ 253402300799 → 0 ≤ (utcFields unix).1 ∧ (utcFields unix).1 ≤ 9999) ∧
+    (unix < -62167219200 → (utcFields unix).1 < 0) ∧
+    (253402300799 < unix → 9999 < (utcFields unix).1) ∧
+    (unixMin ≤ unix → unix ≤ unixMax → -9999 ≤ (utcFields unix).1 ∧ (utcFields unix).1 ≤ 9999) := by
+  obtain ⟨hz, hm1, hm2, hd1, hd2⟩ := civil_days_civil (unix / 86400)
+  have hd31 : (civilFromDays (unix / 86400)).2.2 ≤ 31 := by
+    have := daysInMonth_le_31 (civilFromDays (unix / 86400)).1 (civilFromDays (unix / 86400)).2.1
+    omega
+  have hy : (utcFields unix).1 = (civilFromDays (unix / 86400)).1 := rfl
+  rw [hy]
+  refine ⟨fun h1 h2 => ⟨?_, ?_⟩, fun h => ?_, fun h => ?_, fun h1 h2 => ⟨?_, ?_⟩⟩
+  · by_cases hlt : (civilFromDays (unix / 86400)).1 ≤ -1
+    · have := daysFromCivil_le_of_year_le_neg1 _ _ _ hlt hm1 hm2 hd1 hd31
+      omega
+    · omega
+  · by_cases hgt : 10000 ≤ (civilFromDays (unix / 86400)).1
+    · have := daysFromCivil_ge_of_year_ge _ _ _ hgt hm1 hm2 hd1 hd31
+      omega
+    · omega
+  · by_cases hge : 0 ≤ (civilFromDays (unix / 86400)).1
+    · have := daysFromCivil_ge_of_year_ge_zero _ _ _ hge hm1 hm2 hd1
+      omega
+    · omega
+  · by_cases hle : (civilFromDays (unix / 86400)).1 ≤ 9999
+    · have := daysFromCivil_le_of_year_le_9999 _ _ _ hle hm1 hm2 hd1 hd31
+      omega
+    · omega
+  · unfold unixMin at h1
+    by_cases hlt : (civilFromDays (unix / 86400)).1 ≤ -10000
+    · have := daysFromCivil_le_of_year_le_neg10000 _ _ _ hlt hm1 hm2 hd1 hd31
+      omega
+    · omega
+  · unfold unixMax at h2
+    by_cases hgt : 10000 ≤ (civilFromDays (unix / 86400)).1
+    · have := daysFromCivil_ge_of_year_ge _ _ _ hgt hm1 hm2 hd1 hd31
+      omega
+    · omega
+
+/-- the UTC fields of an instant of the years 0000 … 9999 are a valid date-time that denotes it -/
+theorem utcFields_facts (unix : Int) (h1 : -62167219200 ≤ unix) (h2 : unix ≤ 253402300799) :
     ∃ (y : Int) (m d sod : Nat), utcFields unix = (y, m, d, sod) ∧
-      1 ≤ y ∧ y ≤ 9999 ∧ 1 ≤ m ∧ m ≤ 12 ∧ 1 ≤ d ∧ d ≤ daysInMonth y m ∧ sod < 86400 ∧
+      0 ≤ y ∧ y ≤ 9999 ∧ 1 ≤ m ∧ m ≤ 12 ∧ 1 ≤ d ∧ d ≤ daysInMonth y m ∧ sod < 86400 ∧
       daysFromCivil y m d * 86400 + (sod : Int) = unix ∧ daysFromCivil y m d = unix / 86400 := by
   obtain ⟨hz, hm1, hm2, hd1, hd2⟩ := civil_days_civil (unix / 86400)
-  refine ⟨(civilFromDays (unix / 86400)).1, (civilFromDays (unix / 86400)).2.1, (civilFromDays (unix / 86400)).2.2,
-    (unix % 86400).toNat, rfl, ?_, ?_, hm1, hm2, hd1, hd2, by omega, by rw [hz]; omega, hz⟩
-  · -- year ≥ 1
-    have hd31 : (civilFromDays (unix / 86400)).2.2 ≤ 31 := by
-      have : daysInMonth (civilFromDays (unix / 86400)).1 (civilFromDays (unix / 86400)).2.1 ≤ 31 := by
-        unfold daysInMonth; split
-        · split <;> omega
-        · split <;> omega
-      omega
-    have hlow : unix / 86400 ≥ -719162 := by omega
-    by_cases hlt : (civilFromDays (unix / 86400)).1 < 1
-    · have := daysFromCivil_le_of_year_le_zero _ _ _ (by omega : (civilFromDays (unix / 86400)).1 ≤ 0) hm1 hm2 hd1 hd31
-      omega
-    · omega
-  · have hd31 : (civilFromDays (unix / 86400)).2.2 ≤ 31 := by
-      have : daysInMonth (civilFromDays (unix / 86400)).1 (civilFromDays (unix / 86400)).2.1 ≤ 31 := by
-        unfold daysInMonth; split
-        · split <;> omega
-        · split <;> omega
-      omega
-    have hhigh : unix / 86400 ≤ 2932896 := by omega
-    by_cases hlt : 9999 < (civilFromDays (unix / 86400)).1
-    · have := daysFromCivil_ge_of_year_ge _ _ _ (by omega : 10000 ≤ (civilFromDays (unix / 86400)).1) hm1 hm2 hd1 hd31
-      omega
-    · omega
+  obtain ⟨hy1, hy2⟩ := (utcYear_of_range unix).1 h1 h2
+  exact ⟨(civilFromDays (unix / 86400)).1, (civilFromDays (unix / 86400)).2.1, (civilFromDays (unix / 86400)).2.2,
+    (unix % 86400).toNat, rfl, hy1, hy2, hm1, hm2, hd1, hd2, by omega, by rw [hz]; omega, hz⟩
 
+/-- `checked_to_offset(UTC)` succeeds on every instant `time` can hold in UTC -/
+theorem toUtc_isSome_of_range (t : Ts) (h1 : unixMin ≤ t.unix) (h2 : t.unix ≤ unixMax) : ∃ f, toUtc t = some f := by
+  obtain ⟨hy1, hy2⟩ := (utcYear_of_range t.unix).2.2.2 h1 h2
+  refine ⟨utcFields t.unix, ?_⟩
+  unfold toUtc
+  simp only [Bool.and_eq_true, decide_eq_true_eq, hy1, hy2, and_self, if_true]
 
+/-- **the year check of the `DateTime` arm** (code since 62f4e8c), as a range of instants: a text `time` parses is
+    accepted exactly when its instant lies in the years 0000 … 9999 of UTC -/
+theorem parseRfc3339_of_time {e : Bytes} {t : Ts} (h : parseRfc3339Time e = some t) :
+    parseRfc3339 e = if -62167219200 ≤ t.unix ∧ t.unix ≤ 253402300799 then some t else none := by
+  obtain ⟨hin, hlow, hhigh, _⟩ := utcYear_of_range t.unix
+  unfold parseRfc3339 toUtc
+  simp only [h]
+  by_cases hr : -62167219200 ≤ t.unix ∧ t.unix ≤ 253402300799
+  · obtain ⟨hy1, hy2⟩ := hin hr.1 hr.2
+    have c1 : (decide (-9999 ≤ (utcFields t.unix).1) && decide ((utcFields t.unix).1 ≤ 9999)) = true := by
+      simp only [Bool.and_eq_true, decide_eq_true_eq]; omega
+    have c2 : (decide (0 ≤ (utcFields t.unix).1) && decide ((utcFields t.unix).1 ≤ 9999)) = true := by
+      simp only [Bool.and_eq_true, decide_eq_true_eq]; omega
+    simp only [c1, if_true, c2, if_pos hr]
+  · rw [if_neg hr]
+    have hbad : (decide (0 ≤ (utcFields t.unix).1) && decide ((utcFields t.unix).1 ≤ 9999)) = false := by
+      by_cases hl : t.unix < -62167219200
+      · have := hlow hl
+        simp only [Bool.and_eq_false_iff, decide_eq_false_iff_not]; omega
+      · have := hhigh (by omega)
+        simp only [Bool.and_eq_false_iff, decide_eq_false_iff_not]; omega
+    split
+    · rename_i y a b c heq
+      split at heq
+      · injection heq with heq
+        have : y = (utcFields t.unix).1 := by rw [heq]
+        subst this
+        simp only [hbad, Bool.false_eq_true, if_false]
+      · cases heq
+    · rfl
+
+/-- what is accepted is what `time` parsed, and its instant lies in the years 0000 … 9999 of UTC -/
+theorem parseRfc3339_some {e : Bytes} {t : Ts} (h : parseRfc3339 e = some t) :
+    parseRfc3339Time e = some t ∧ -62167219200 ≤ t.unix ∧ t.unix ≤ 253402300799 := by
+  cases ht : parseRfc3339Time e with
+  | none => simp [parseRfc3339, ht] at h
+  | some t' =>
+    rw [parseRfc3339_of_time ht] at h
+    split at h
+    · rename_i hr
+      injection h with h
+      subst h
+      exact ⟨rfl, hr⟩
+    · cases h
 
 theorem validFields_of (y : Int) (m d sod : Nat) (hy1 : -9999 ≤ y) (hy2 : y ≤ 9999) (hm1 : 1 ≤ m) (hm2 : m ≤ 12)
     (hd1 : 1 ≤ d) (hd2 : d ≤ daysInMonth y m) (hs : sod < 86400) :
@@ -50,9 +124,9 @@ theorem localSeconds_sod (y : Int) (m d sod : Nat) (hs : sod < 86400) :
   have : sod / 3600 * 3600 + sod / 60 % 60 * 60 + sod % 60 = sod := by omega
   rw [this]
 
-/-- text of `formatDateTime` for an instant of the years 1 … 9999, in right-nested form -/
+/-- text of `formatDateTime` for an instant of the years 0000 … 9999, in right-nested form -/
 theorem formatDateTime_eq (t : Ts) (y : Int) (m d sod : Nat) (hf : utcFields t.unix = (y, m, d, sod))
-    (hy1 : 1 ≤ y) (hy2 : y ≤ 9999) :
+    (hy1 : 0 ≤ y) (hy2 : y ≤ 9999) :
     formatDateTime t = some (pad4 y.natAbs ++ 45 :: (pad2 m ++ 45 :: (pad2 d ++ 84 :: (pad2 (sod / 3600) ++ 58 ::
       (pad2 (sod / 60 % 60) ++ 58 :: (pad2 (sod % 60) ++ 46 :: (pad3 (t.nanos / 1000000) ++ [90]))))))) := by
   have hr : (decide (-9999 ≤ y) && decide (y ≤ 9999)) = true := by simp; omega
@@ -60,7 +134,7 @@ theorem formatDateTime_eq (t : Ts) (y : Int) (m d sod : Nat) (hf : utcFields t.u
   simp only [formatDateTime, toUtc, hf, hr, if_true, fmtYear, hneg, if_false, fmtHms, List.nil_append,
     List.append_assoc, List.cons_append]
 
-theorem datetime_roundtrip (t : Ts) (h1 : -62135596800 ≤ t.unix) (h2 : t.unix ≤ 253402300799)
+theorem datetime_roundtrip (t : Ts) (h1 : -62167219200 ≤ t.unix) (h2 : t.unix ≤ 253402300799)
     (hn : t.nanos < 1000000000) :
     ∃ txt, formatDateTime t = some txt ∧
       parseRfc3339 txt = some ⟨t.unix, t.nanos / 1000000 * 1000000, 0⟩ := by
@@ -72,12 +146,15 @@ theorem datetime_roundtrip (t : Ts) (h1 : -62135596800 ≤ t.unix) (h2 : t.unix 
       · split <;> omega
       · split <;> omega
     omega
-  rw [parse_canonical y.natAbs m d (sod / 3600) (sod / 60 % 60) (sod % 60) 84 (46 :: (pad3 (t.nanos / 1000000) ++ [90])) [90]
-    (t.nanos / 1000000 * 1000000) 0 (by omega) (by omega) (by omega) (by omega) (by omega) (by omega)
-    (parseSubsec_pad3 _ (by omega) 90 (by decide) []) parseOffset_Z]
   have hya : ((y.natAbs : Nat) : Int) = y := by omega
-  rw [hya, validFields_of y m d sod (by omega) hy2 hm1 hm2 hd1 hd2 hs, if_pos rfl, localSeconds_sod _ _ _ _ hs, hden]
-  simp
+  have htime := parse_canonical y.natAbs m d (sod / 3600) (sod / 60 % 60) (sod % 60) 84
+    (46 :: (pad3 (t.nanos / 1000000) ++ [90])) [90]
+    (t.nanos / 1000000 * 1000000) 0 (by omega) (by omega) (by omega) (by omega) (by omega) (by omega)
+    (parseSubsec_pad3 _ (by omega) 90 (by decide) []) parseOffset_Z
+  rw [hya, validFields_of y m d sod (by omega) hy2 hm1 hm2 hd1 hd2 hs, if_pos rfl, localSeconds_sod _ _ _ _ hs, hden,
+    Int.sub_zero] at htime
+  rw [parseRfc3339_of_time htime]
+  exact if_pos ⟨h1, h2⟩
 
 
 
@@ -131,7 +208,7 @@ theorem parse_http_canonical (wd mi Y d H Mi S : Nat) (hwd : wd < 7) (hmi : mi <
 
 
 theorem formatHttpDate_eq (t : Ts) (y : Int) (m d sod : Nat) (hf : utcFields t.unix = (y, m, d, sod))
-    (hy1 : 1 ≤ y) (hy2 : y ≤ 9999) :
+    (hy1 : 0 ≤ y) (hy2 : y ≤ 9999) :
     formatHttpDate t = some (weekdayNames.getD (weekdayOfDays (t.unix / 86400)) [] ++ 44 :: 32 :: (pad2 d ++ 32 ::
       (monthNames.getD (m - 1) [] ++ 32 :: (pad4 y.natAbs ++ 32 :: (pad2 (sod / 3600) ++ 58 ::
       (pad2 (sod / 60 % 60) ++ 58 :: (pad2 (sod % 60) ++ gmtSuffix))))))) := by
@@ -140,7 +217,7 @@ theorem formatHttpDate_eq (t : Ts) (y : Int) (m d sod : Nat) (hf : utcFields t.u
   simp only [formatHttpDate, toUtc, hf, hr, if_true, fmtYear, hneg, if_false, fmtHms, List.nil_append,
     List.append_assoc, List.cons_append]
 
-theorem httpdate_roundtrip (t : Ts) (h1 : -62135596800 ≤ t.unix) (h2 : t.unix ≤ 253402300799) :
+theorem httpdate_roundtrip (t : Ts) (h1 : -62167219200 ≤ t.unix) (h2 : t.unix ≤ 253402300799) :
     ∃ txt, formatHttpDate t = some txt ∧ parseHttpDate txt = some ⟨t.unix, 0, 0⟩ := by
   obtain ⟨y, m, d, sod, hf, hy1, hy2, hm1, hm2, hd1, hd2, hs, hden, _⟩ := utcFields_facts t.unix h1 h2
   refine ⟨_, formatHttpDate_eq t y m d sod hf hy1 hy2, ?_⟩
@@ -192,11 +269,11 @@ theorem three_eq (n : Nat) : three n = pad3 n := rfl
 theorem fracText_eq (ms : Option Nat) : fracText ms = (match ms with | none => [] | some x => 46 :: pad3 x) := by cases ms <;> rfl
 theorem four_eq (n : Nat) : four n = pad4 n := rfl
 
-/-- an RFC 3339 text with any offset in [−23:59, +23:59] is parsed to the instant local − offset -/
-theorem parse_rfc3339Text (Y m d H Mi S : Nat) (ms : Option Nat) (neg : Bool) (oh om : Nat)
+/-- `time` parses an RFC 3339 text with any offset in [−23:59, +23:59] to the instant local − offset -/
+theorem parseTime_rfc3339Text (Y m d H Mi S : Nat) (ms : Option Nat) (neg : Bool) (oh om : Nat)
     (hdate : validDate Y m d = true) (hH : H ≤ 23) (hMi : Mi ≤ 59) (hS : S ≤ 59)
     (hms : ∀ x, ms = some x → x < 1000) (hoh : oh ≤ 23) (hom : om ≤ 59) :
-    parseRfc3339 (rfc3339Text Y m d H Mi S ms neg oh om) =
+    parseRfc3339Time (rfc3339Text Y m d H Mi S ms neg oh om) =
       some ⟨rfc3339Instant Y m d H Mi S neg oh om, fracNanosOf ms, offsetSeconds neg oh om⟩ := by
   simp only [validDate, Bool.and_eq_true, decide_eq_true_eq] at hdate
   obtain ⟨⟨⟨⟨⟨hy1, hy2⟩, hm1⟩, hm2⟩, hd1⟩, hd2⟩ := hdate
@@ -221,6 +298,123 @@ theorem parse_rfc3339Text (Y m d H Mi S : Nat) (ms : Option Nat) (neg : Bool) (o
   rw [if_pos hv]
   simp only [localSeconds, rfc3339Instant, offsetSeconds, daysFromCivil_eq_specDays Y m d hy1 hm1 hm2 hd1]
 
+/-- an RFC 3339 text with any offset in [−23:59, +23:59] is parsed to the instant local − offset — exactly when
+    that instant lies in the years 0000 … 9999 of UTC; otherwise the text is refused (code since 62f4e8c: the
+    type's own text forms could not express the instant) -/
+theorem parse_rfc3339Text (Y m d H Mi S : Nat) (ms : Option Nat) (neg : Bool) (oh om : Nat)
+    (hdate : validDate Y m d = true) (hH : H ≤ 23) (hMi : Mi ≤ 59) (hS : S ≤ 59)
+    (hms : ∀ x, ms = some x → x < 1000) (hoh : oh ≤ 23) (hom : om ≤ 59) :
+    parseRfc3339 (rfc3339Text Y m d H Mi S ms neg oh om) =
+      if -62167219200 ≤ rfc3339Instant Y m d H Mi S neg oh om ∧ rfc3339Instant Y m d H Mi S neg oh om ≤ 253402300799
+      then some ⟨rfc3339Instant Y m d H Mi S neg oh om, fracNanosOf ms, offsetSeconds neg oh om⟩ else none :=
+  parseRfc3339_of_time (parseTime_rfc3339Text Y m d H Mi S ms neg oh om hdate hH hMi hS hms hoh hom)
 
+/-! ### an accepted timestamp can be written (code since 62f4e8c: `fmt_timestamp(..).unwrap()` cannot fail on it) -/
+
+theorem formatDateTime_isSome_of_toUtc (t : Ts) (f : Int × Nat × Nat × Nat) (h : toUtc t = some f) :
+    ∃ txt, formatDateTime t = some txt := by
+  obtain ⟨y, m, d, sod⟩ := f
+  unfold formatDateTime
+  rw [h]
+  exact ⟨_, rfl⟩
+
+theorem formatHttpDate_isSome_of_toUtc (t : Ts) (f : Int × Nat × Nat × Nat) (h : toUtc t = some f) :
+    ∃ txt, formatHttpDate t = some txt := by
+  obtain ⟨y, m, d, sod⟩ := f
+  unfold formatHttpDate
+  rw [h]
+  exact ⟨_, rfl⟩
+
+theorem formatEpochSeconds_isSome (t : Ts) : ∃ txt, formatEpochSeconds t = some txt := by
+  unfold formatEpochSeconds
+  simp only
+  split
+  · exact ⟨_, rfl⟩
+  · exact ⟨_, rfl⟩
+
+/-- every instant `time` can hold in UTC is written by all three arms of `Timestamp::format` -/
+theorem format_total_of_range (t : Ts) (h1 : unixMin ≤ t.unix) (h2 : t.unix ≤ unixMax) :
+    (∃ a, formatDateTime t = some a) ∧ (∃ b, formatHttpDate t = some b) ∧ (∃ c, formatEpochSeconds t = some c) := by
+  obtain ⟨f, hf⟩ := toUtc_isSome_of_range t h1 h2
+  exact ⟨formatDateTime_isSome_of_toUtc t f hf, formatHttpDate_isSome_of_toUtc t f hf, formatEpochSeconds_isSome t⟩
+
+/-- a timestamp accepted in the `DateTime` form lies within `time`'s range -/
+theorem parseRfc3339_range {e : Bytes} {t : Ts} (h : parseRfc3339 e = some t) : unixMin ≤ t.unix ∧ t.unix ≤ unixMax := by
+  obtain ⟨_, h1, h2⟩ := parseRfc3339_some h
+  unfold unixMin unixMax
+  omega
+
+theorem epochFromNanos_range {n : Int} {t : Ts} (h : epochFromNanos n = some t) :
+    unixMin ≤ t.unix ∧ t.unix ≤ unixMax := by
+  unfold epochFromNanos at h
+  simp only at h
+  split at h
+  · cases h
+  · rename_i hr
+    injection h with h
+    subst h
+    simp only [Bool.or_eq_true, decide_eq_true_eq, not_or, Int.not_lt] at hr
+    show unixMin ≤ n / 1000000000 ∧ n / 1000000000 ≤ unixMax
+    exact ⟨hr.1, by omega⟩
+
+/-- … so does one accepted in the `EpochSeconds` form (`from_unix_timestamp_nanos`) -/
+theorem parseEpochSeconds_range {e : Bytes} {t : Ts} (h : parseEpochSeconds e = some t) :
+    unixMin ≤ t.unix ∧ t.unix ≤ unixMax := by
+  unfold parseEpochSeconds at h
+  split at h
+  · cases h
+  · split at h
+    · cases h
+    · split at h
+      · cases h
+      · exact epochFromNanos_range h
+
+/-- a valid calendar date-time of the years −9999 … 9999 is within `time`'s range -/
+theorem localSeconds_range (y : Int) (mo d h mi s : Nat) (hv : validFields y mo d h mi s = true) :
+    unixMin ≤ localSeconds y mo d h mi s ∧ localSeconds y mo d h mi s ≤ unixMax := by
+  simp only [validFields, Bool.and_eq_true, decide_eq_true_eq] at hv
+  obtain ⟨⟨⟨⟨⟨⟨hy1, hy2⟩, hm1, hm2⟩, hd1, hd2⟩, hh⟩, hmi⟩, hs⟩ := hv
+  have hd31 : d ≤ 31 := by have := daysInMonth_le_31 y mo; omega
+  have hlo := daysFromCivil_ge_of_year_ge_neg9999 y mo d hy1 hm1 hm2 hd1
+  have hhi := daysFromCivil_le_of_year_le_9999 y mo d hy2 hm1 hm2 hd1 hd31
+  unfold localSeconds unixMin unixMax
+  omega
+
+/-- a valid calendar date-time of the years 0000 … 9999, read in UTC, passes the year check of the `DateTime` arm -/
+theorem localSeconds_range_year0 (y : Int) (mo d h mi s : Nat) (hy0 : 0 ≤ y) (hv : validFields y mo d h mi s = true) :
+    -62167219200 ≤ localSeconds y mo d h mi s ∧ localSeconds y mo d h mi s ≤ 253402300799 := by
+  simp only [validFields, Bool.and_eq_true, decide_eq_true_eq] at hv
+  obtain ⟨⟨⟨⟨⟨⟨hy1, hy2⟩, hm1, hm2⟩, hd1, hd2⟩, hh⟩, hmi⟩, hs⟩ := hv
+  have hd31 : d ≤ 31 := by have := daysInMonth_le_31 y mo; omega
+  have hlo := daysFromCivil_ge_of_year_ge_zero y mo d hy0 hm1 hm2 hd1
+  have hhi := daysFromCivil_le_of_year_le_9999 y mo d hy2 hm1 hm2 hd1 hd31
+  unfold localSeconds
+  omega
+
+/-- … and one accepted in the `HttpDate` form (a valid date-time of the years −9999 … 9999, in UTC) -/
+theorem parseHttpDate_range {e : Bytes} {t : Ts} (h : parseHttpDate e = some t) :
+    unixMin ≤ t.unix ∧ t.unix ≤ unixMax := by
+  unfold parseHttpDate at h
+  simp only [Option.bind_eq_bind, Option.bind_eq_some_iff] at h
+  obtain ⟨a1, -, a2, -, a3, -, a4, -, a5, -, a6, -, a7, -, a8, -, a9, -, a10, -, a11, -, a12, -, a13, -, a14, -, h⟩ := h
+  split at h
+  · simp at h
+  · split at h
+    · simp at h
+    · rename_i hv
+      injection h with h
+      subst h
+      exact localSeconds_range _ _ _ _ _ _ (by simpa using hv)
+
+/-- **whatever form a timestamp was accepted in, it can be written in every form**: `Timestamp::format` succeeds, so
+    `fmt_timestamp(..).unwrap()` does not panic on a parsed value -/
+theorem parse_format_total (f : TsFormat) {e : Bytes} {t : Ts} (h : Ts.parse f e = some t) :
+    (∃ a, formatDateTime t = some a) ∧ (∃ b, formatHttpDate t = some b) ∧ (∃ c, formatEpochSeconds t = some c) := by
+  have hr : unixMin ≤ t.unix ∧ t.unix ≤ unixMax := by
+    cases f with
+    | dateTime => exact parseRfc3339_range h
+    | httpDate => exact parseHttpDate_range h
+    | epochSeconds => exact parseEpochSeconds_range h
+  exact format_total_of_range t hr.1 hr.2
 
 end S3V.Dto
